@@ -662,6 +662,9 @@ theorem handleMessage_eff {pc : PeerCrypto} {sd : Side} {c : Core} (h : Sess pc 
             have : ({ pc with core := some c' } : PeerCrypto).unencrypted = false := h.enc
             rw [this]; simp
           rw [hdata]
+          by_cases hpan : PeerCrypto.rotatePanics { pc with core := some c' } body = true
+          · rw [if_pos hpan]; trivial
+          rw [if_neg hpan]
           rcases handleRotate_eff h1 body rr hf with ⟨_, hr⟩ | ⟨bm, c2, hrd, hr2, hs2, hm2, hh2⟩
           · rw [hr]
             exact ⟨c', h1, rfl, hs.half⟩
